@@ -4,7 +4,7 @@ Require Import Parser ParserShape Render RenderTotal RenderWfOk RenderInline Ren
 From Coq Require Import List Ascii String ZArith Bool Lia Arith.
 Import ListNotations.
 
-Lemma leaves_eok_all (l : list expr) : forallb ParserShape.is_leaf l = true ->
+Lemma leaves_eok_all (l : list expr) : forallb Shape.is_leaf l = true ->
   (fix all (l : list expr) : bool := match l with [] => true | x :: r => eok x && all r end) l = true.
 Proof.
   induction l as [|x xs IH]; cbn [forallb]; auto. intros H. apply andb_true_iff in H. destruct H as [Hx Hxs].
@@ -14,7 +14,7 @@ Qed.
 Theorem dsh_validate_eok : forall n e, esize e <= n -> dsh e = true -> validate e = true -> eok e = true.
 Proof.
   induction n as [|n IH]; intros e Hs D V; [destruct e; cbn in Hs; lia|].
-  destruct (ParserShape.is_leaf e) eqn:Lf; [apply leaf_eok; exact Lf|].
+  destruct (Shape.is_leaf e) eqn:Lf; [apply leaf_eok; exact Lf|].
   destruct e as [l op r bo fu]. cbn in Hs. cbn [dsh] in D. rewrite Lf in D. cbn [orb] in D.
   apply andb_true_iff in D. destruct D as [Dl Dr].
   cbn [validate] in V. apply andb_true_iff in V. destruct V as [Vn Vc]. apply andb_true_iff in Vc. destruct Vc as [Vl Vr].
